@@ -21,6 +21,7 @@ type refModel struct {
 	maps           map[string]map[string][]byte // reference map of every logical directory
 	curDir         string
 	pending        string // property to blame at the next dump
+	opens          int
 }
 
 func newRefModel() *refModel {
@@ -179,6 +180,7 @@ func (m *refModel) beforeClose(r *EngineRunner) {}
 
 // afterOpen only notes what the next dump has to be compared with.
 func (m *refModel) afterOpen(r *EngineRunner) {
+	m.opens++
 	switch {
 	case m.backups[r.cur] != nil:
 		m.pending = "C20"
